@@ -6,25 +6,31 @@ COMMON_NOTE = (
     "checked by the differential correspondence of each run within the reported generator bounds; CPython/numpy "
     "arithmetic idealised (ints exact, doubles as rationals, constants compared to 1e-9). "
 )
+SRC_NOTE = (
+    "Source tie: lean/Mathy/Gen/PySrc.lean is regenerated on every run from the live Python source by the translator "
+    "harness/py2lean.py (17 decision functions: tokenizer character classes, printer predicates, classifiers of 8 of the 9 "
+    "rules); the Src_* theorems (Props/SrcTie*.lean) prove that the model computes what the translated source computes for "
+    "all inputs; trusted there: the translator and the run-time library Model/PyRt.lean. "
+)
 
 CHECKS = {
     "C01": {
         "text": "Theorems (lean/Mathy/Props/C01.lean) over the Lean model of all nine rules x options: any applicable rewrite at any position of any tree refines the value at every assignment (exact rationals, integer powers). Tied to the code by differential execution of every rule at every node of exhaustive small and random reachable trees, plus an exact-rational oracle on the real results.",
         "design_ref": "DESIGN.md 3/C01",
-        "note": COMMON_NOTE + "Real (non-integer) powers are outside the model's semantic domain; rounding of folded constants is tolerated, not proved.",
+        "note": COMMON_NOTE + SRC_NOTE + "Real (non-integer) powers are outside the model's semantic domain; rounding of folded constants is tolerated, not proved.",
         "technique": "Lean 4 proof over executable model + differential correspondence + exact oracle",
     },
     "C02": {
         "text": "Theorems: every applicable rewrite of an equation-rooted tree preserves holds/does-not-hold at every assignment; balanced move only moves top-level addends and never divides by zero. Correspondence and root-finding oracle on equation trees.",
         "design_ref": "DESIGN.md 3/C02",
-        "note": COMMON_NOTE,
+        "note": COMMON_NOTE + SRC_NOTE,
         "technique": "Lean 4 proof over executable model + differential correspondence + exact oracle",
     },
     "C06": {
         "text": "Theorems: canApply => apply returns a tree (model apply has the same failure points as apply_to); findNodes = filter of in-order nodes; findNode = head. Correspondence of applicable sets, r_index, first match; purity by object-graph snapshots around can_apply_to (called twice).",
         "design_ref": "DESIGN.md 3/C06",
-        "note": COMMON_NOTE + "Absence of writes in can_apply_to cannot be stated about a pure function: it is established by snapshots only (partial).",
-        "technique": "Lean 4 proof over executable model + differential correspondence + snapshots",
+        "note": COMMON_NOTE + SRC_NOTE + "Absence of writes in can_apply_to cannot be stated about a pure function: it is established by snapshots only (partial).",
+        "technique": "Lean 4 proof over executable model + classifiers translated from source (proved equal to the model) + differential correspondence + snapshots",
     },
     "C07": {
         "text": "Theorems on identity-tagged trees: results contain no original object twice, context subtrees are untouched, variable set preserved. Correspondence compares identities node by node and audits links of the real result; the tree cloned from is re-snapshotted.",
@@ -39,13 +45,13 @@ CHECKS.update({
     "C03": {
         "text": "Theorems: the parser model accepts exactly the token strings the documented grammar derives (soundness + completeness, hence unambiguity) and returns exactly the prescribed tree, for every token list, with the model's fuel proved sufficient. Tied to the code by comparing trees / error kinds of the real parser and the model on ALL strings of up to 5 (6) tokens, grammar-directed and malformed text, plus an independent evaluator written from the documented grammar run against the real parser.",
         "design_ref": "DESIGN.md 3/C03",
-        "note": COMMON_NOTE + "Token level (characters are C11). The grammar relations build the implementation's grouping of '*'; its left-to-right VALUE is checked by the grammar oracle, not proved.",
+        "note": COMMON_NOTE + SRC_NOTE + "Token level (characters are C11). The grammar relations build the implementation's grouping of '*'; its left-to-right VALUE is checked by the grammar oracle, not proved.",
         "technique": "Lean 4 proof (parser soundness/completeness vs grammar relations) + exhaustive differential correspondence + grammar oracle",
     },
     "C04": {
         "text": "Theorem: for every printable tree (any shape, not only parser outputs) the printed token list is accepted by the parser and the re-parsed tree evaluates identically at every assignment and has the same variables (via parser completeness). Correspondence: real str(tree) tokenized vs model printer tokens, real re-parse vs model, exact evaluation, on all small trees and on every rewrite result.",
         "design_ref": "DESIGN.md 3/C04",
-        "note": COMMON_NOTE + "Token level; number formatter is a parameter with a round-trip hypothesis; right-nested equation chains: value agreement only (see theorems.json partial).",
+        "note": COMMON_NOTE + SRC_NOTE + "Token level; number formatter is a parameter with a round-trip hypothesis; right-nested equation chains: value agreement only (see theorems.json partial).",
         "technique": "Lean 4 proof (print/parse round trip through the grammar) + differential correspondence + re-parse oracle",
     },
     "C05": {
@@ -57,7 +63,7 @@ CHECKS.update({
     "C09": {
         "text": "Theorems by induction over arbitrary finite sequences of applicable rewrites: expressions keep their value (refinement, transitive), equations keep their truth, the variable set is constant, an expression never becomes an equation. Correspondence: random walks of length 8 (40) on the real code, each step on clone_from_root, every state audited, compared with the start exactly, printed and re-parsed, earlier states re-snapshotted, each step replayed on the model.",
         "design_ref": "DESIGN.md 3/C09",
-        "note": COMMON_NOTE,
+        "note": COMMON_NOTE + SRC_NOTE,
         "technique": "Lean 4 proof (induction over rewrite sequences from C01/C02/C07) + random-walk differential correspondence",
     },
     "C10": {
@@ -69,7 +75,7 @@ CHECKS.update({
     "C11": {
         "text": "Theorems over the tokenizer model for ALL strings and both padding modes: lossless up to the three normalisations, exactly one end marker, padding mode only filters pad tokens, error iff (first) unsupported character, maximal-munch equations for digit/dot runs, letter runs (function name only if the WHOLE run matches) and single-character operators. Exhaustive correspondence on all strings of up to 4 (5) symbols over a 25-symbol alphabet.",
         "design_ref": "DESIGN.md 3/C11",
-        "note": COMMON_NOTE,
+        "note": COMMON_NOTE + SRC_NOTE,
         "technique": "Lean 4 proof over tokenizer model + exhaustive differential correspondence + losslessness oracle",
     },
     "C12": {
